@@ -41,11 +41,69 @@ type reqRec struct {
 	KeyID       string              `json:"key_id,omitempty"`
 }
 
+// slowAgent: the requester's agent takes more than a second to accept the new key. However long the run waits for it,
+// the request asks for exactly the configured validity (the shortest configurable ones included).
+func slowAgent(r *ev.Run) {
+	var wg sync.WaitGroup
+	defer wg.Wait()
+	for ci, validity := range []uint64{1, 2, 3600} {
+		c := r.Case("slow-agent", ci)
+		if c == nil {
+			continue
+		}
+		rec := map[string]any{"configured_validity": validity, "agent_delay_ms": 1300}
+		r.Eval(1)
+		wg.Add(1)
+		go r.Guard(c, "slow agent", rec, func() {
+			defer wg.Done()
+			kd, _ := gsrig.NewKeyDir()
+			defer kd.Remove()
+			user := gen.Pool()[0]
+			kd.Write("alice.pub", gsrig.AuthorizedLine(user.Pub, ""))
+			gc, _, err := gsrig.GensignConfig(gsrig.Conf{PubKeyDir: kd.Path, Identifiers: map[string]string{"default": "d"}, ValiditySec: validity})
+			if err != nil {
+				r.Inconclusive(err.Error())
+				return
+			}
+			ag := wire.New()
+			defer ag.Close()
+			ag.Keyring.Add(agent.AddedKey{PrivateKey: user.Priv})
+			ag.SetPlan(func(_ int, req []byte) wire.Action {
+				if len(req) > 0 && (req[0] == 17 || req[0] == 25) {
+					return wire.Action{Kind: wire.Honest, Delay: 1300 * time.Millisecond}
+				}
+				return wire.Action{Kind: wire.Honest}
+			})
+			rig, err := gsrig.NewRig(ag, gc)
+			if err != nil {
+				r.Inconclusive(err.Error())
+				return
+			}
+			defer rig.Close()
+			gsrig.Run(gsrig.Param(gsrig.ParamSpec{LogName: "alice", ReqUser: "u", ReqHost: "h", ClientIP: "1.2.3.4", TransID: "0123456789", Policy: "NONS"}), []gensign.Handler{rig.Handler}, rig.Signer)
+			if len(rig.Signer.Calls) != 1 {
+				r.Count("slow agent: no request reached the CA (not judged)", 1)
+				return
+			}
+			if got := rig.Signer.Calls[0].Req.Validity; got != validity {
+				r.Violation(c, "csr-field:validity:slow-agent", fmt.Sprintf("configured %d s, the agent took 1.3 s to accept the key, the request asks for %d s", validity, got), rec)
+				return
+			}
+			r.Count("requests with the configured validity although the agent was slow", 1)
+			r.Nontrivial(fmt.Sprintf("slow-agent:%d", validity))
+		})
+	}
+}
+
 func main() {
 	ev.MainIsolated("C02", "exploration", 40*time.Minute, func(r *ev.Run) {
 		r.Rule("seeded requests through the real handler (NewHandler from JSON configuration) and gensign.Run with an honest forwarded agent and a recording signer: login name / client user / host / transaction id from a hostile alphabet (quotes, backslashes, NUL, newlines, braces, multi-byte UTF-8, up to 1 KiB), IPv4/IPv6 literals, requested CA key algorithm 0..5 and out of range, validity in {1, 59, 3600, 43200, 2^31, 10 years, default}, identifier maps with 0..5 entries keyed by algorithm name in random case or by decimal number. Each CSR is compared field by field with an oracle built from the inputs; the KeyID is decoded with encoding/json into a map (exact key set and JSON types) and with keyid.Unmarshal; the certified public key must be new (pairwise distinct over the whole run, different from the user's key) and be the public half of the private key this run added to the agent. distinct_nontrivial = distinct requests that produced a CSR and passed every field comparison + distinct refused (algorithm, identifier map) combinations")
 		r.Assume("strings are valid UTF-8", "encoding/json is the independent KeyID decoder")
 		gen.Pool()
+		var swg sync.WaitGroup
+		swg.Add(1)
+		go func() { defer swg.Done(); slowAgent(r) }()
+		defer swg.Wait()
 		n := r.Pick(600, 20000)
 		var wg sync.WaitGroup
 		sem := make(chan struct{}, 8)
